@@ -224,7 +224,7 @@ pub fn flat_chain(rng: &mut Rng, n: usize) -> String {
 
 pub fn flat_length(rng: &mut Rng, allow_huge: bool) -> usize {
     if allow_huge {
-        rng.pick(&[100usize, 3000, 20000, 100000, 300000])
+        rng.pick(&[100usize, 100, 1000, 3000, 3000, 20000, 20000, 20000, 100000, 300000])
     } else {
         rng.pick(&[10usize, 100, 1000])
     }
